@@ -61,6 +61,9 @@ type C20VLine struct {
 	PanicOn   int        `json:"panic_on,omitempty"`
 	CloseOn   int        `json:"close_on,omitempty"`
 	ExcPanics bool       `json:"exc_panics,omitempty"`
+	// OnActive: what a handler behind the idle handlers does with the active event: "" forwards it,
+	// "close" closes the channel from inside it, "panic" panics (the exception is swallowed, the channel stays open)
+	OnActive string `json:"on_active,omitempty"`
 }
 
 func genC20Line(t *rapid.T) C20Line {
